@@ -425,6 +425,9 @@ pub struct Renderer<'a, 'b> {
     pub line_of: HashMap<u32, usize>,
     /// probe style for C10
     pub probes: bool,
+    /// which file is being rendered (0 = main, 1 = included library) and the file of every emit/fail id
+    pub file: u8,
+    pub file_of: HashMap<u32, u8>,
 }
 
 pub fn render_expr(e: &Expr) -> String {
@@ -502,6 +505,7 @@ impl<'a, 'b> Renderer<'a, 'b> {
                     }
                     self.line(depth, &l);
                     self.line_of.insert(*id, self.rs.lines);
+                    self.file_of.insert(*id, self.file);
                 }
                 Stmt::Assign(v, e) => {
                     let l = format!("{} = set {}", v, render_expr(e));
@@ -580,6 +584,7 @@ impl<'a, 'b> Renderer<'a, 'b> {
                     }
                     self.line(depth, &l);
                     self.line_of.insert(*id, self.rs.lines);
+                    self.file_of.insert(*id, self.file);
                     if self.probes {
                         self.line(depth, "pe = get_last_error");
                         self.line(depth, "pl = get_last_error_line");
@@ -609,7 +614,7 @@ pub struct Rendered {
 
 pub fn render(p: &Program, t: &mut Tape, probes: bool) -> Rendered {
     let fancy = t.chance(2, 3);
-    let mut r = Renderer { t, out: String::new(), rs: RenderStats::default(), fancy, line_of: HashMap::new(), probes };
+    let mut r = Renderer { t, out: String::new(), rs: RenderStats::default(), fancy, line_of: HashMap::new(), probes, file: 0, file_of: HashMap::new() };
     for (i, a) in p.arrays.iter().enumerate() {
         let l = format!("arr{} = array {}", i, a.join(" "));
         r.line(0, l.trim_end());
@@ -626,6 +631,40 @@ pub fn render(p: &Program, t: &mut Tape, probes: bool) -> Rendered {
     }
     r.block(&p.main, 0, &p.fns);
     Rendered { text: r.out, rs: r.rs, line_of: r.line_of }
+}
+
+pub struct RenderedSplit {
+    pub main: String,
+    pub lib: String,
+    pub line_of: HashMap<u32, usize>,
+    pub file_of: HashMap<u32, u8>,
+}
+
+/// Renders the function definitions into a library file that the main file includes at its first line.
+pub fn render_split(p: &Program, t: &mut Tape, probes: bool, include_line: &str) -> RenderedSplit {
+    let fancy = t.chance(2, 3);
+    let mut r = Renderer { t, out: String::new(), rs: RenderStats::default(), fancy, line_of: HashMap::new(), probes, file: 1, file_of: HashMap::new() };
+    for f in &p.fns {
+        let k = r.kw(Spell::FN);
+        let l = if f.scoped { format!("{} <scope> {}", k, f.name) } else { format!("{} {}", k, f.name) };
+        r.line(0, &l);
+        r.block(&f.body, 1, &p.fns);
+        let k = r.kw(Spell::ENDFN);
+        r.line(0, &k);
+    }
+    let lib = std::mem::take(&mut r.out);
+    r.rs.lines = 0;
+    r.file = 0;
+    for (i, a) in p.arrays.iter().enumerate() {
+        let l = format!("arr{} = array {}", i, a.join(" "));
+        r.line(0, l.trim_end());
+        r.line(0, &format!("emit 0 @arr{} ${{arr{}}}", i, i));
+    }
+    r.out.push_str(include_line);
+    r.out.push('\n');
+    r.rs.lines += 1;
+    r.block(&p.main, 0, &p.fns);
+    RenderedSplit { main: r.out, lib, line_of: r.line_of, file_of: r.file_of }
 }
 
 // -------------------------------------------------------------------------------------------------
@@ -677,6 +716,8 @@ pub struct Model<'p> {
     pub early_returns: u32,
     pub call_stack: Vec<usize>,
     pub script_source: String,
+    /// source file per statement id (when the program is split over files); default: script_source
+    pub source_of: HashMap<u32, String>,
     pub line_of: HashMap<u32, usize>,
     pub lib_messages: HashMap<String, String>,
 }
@@ -721,6 +762,7 @@ impl<'p> Model<'p> {
             early_returns: 0,
             call_stack: vec![],
             script_source: String::new(),
+            source_of: HashMap::new(),
             line_of: HashMap::new(),
             lib_messages: HashMap::new(),
         }
@@ -1025,14 +1067,15 @@ impl<'p> Model<'p> {
                     }
                     // the probe lines that follow
                     let line = self.line_of.get(id).copied().unwrap_or(0);
+                    let source = self.source_of.get(id).cloned().unwrap_or_else(|| self.script_source.clone());
                     self.assign("pe", Some(msg.clone()))?;
                     self.assign("pl", Some(line.to_string()))?;
-                    self.assign("ps", Some(self.script_source.clone()))?;
+                    self.assign("ps", Some(source.clone()))?;
                     let ov = match out {
                         Some(o) => self.read(o)?,
                         None => "-".to_string(),
                     };
-                    self.trace.push(Emitted { id: *id, args: vec![id.to_string(), "probe".into(), msg, line.to_string(), self.script_source.clone(), ov] });
+                    self.trace.push(Emitted { id: *id, args: vec![id.to_string(), "probe".into(), msg, line.to_string(), source, ov] });
                 }
                 Stmt::ExitOnError(b) => {
                     self.exit_on_error = *b;
